@@ -21,14 +21,63 @@ def run_ops(cls: str, params: dict, ops: list[tuple], inst: str = "a", callbacks
     return r
 
 
+LINEAR = ("CUSUM", "PageHinkley", "GeometricMovingAverage")
+
+
+def pow2_shift(r) -> int:
+    """The statistics of the CUSUM family are LINEAR in (values, delta, lambda_), and binary floating point is exactly invariant under multiplication of all of them
+    by a power of two (no overflow, no subnormals involved): a problem of magnitude 1e-10 or 1e9 is sent to the model multiplied by 2^k so that its magnitude is
+    about 1 - where the model's tie margin (which has an absolute floor of 1e-9) means what it says - and the model's floats are divided by 2^k again.
+    Returns k (0: no rescaling)."""
+    import math
+    if r.cls not in LINEAR or not r.lines:
+        return 0
+    fp = dets.full_params(r.cls, r.params)
+    mags = [abs(h2f(l.split(" ")[2])) for l in r.lines if l[:2] in ("u ", "uq") and len(l.split(" ")) > 2] + [abs(float(fp.get("delta", 0.0))), abs(float(fp["lambda_"]))]
+    mags = [m for m in mags if m > 0 and math.isfinite(m)]
+    if not mags:
+        return 0
+    top, low = max(mags), min(mags)
+    if 2.0 ** -20 <= top <= 2.0 ** 20:
+        return 0
+    k = -int(math.floor(math.log2(top)))
+    # exactness needs every scaled quantity (and the intermediate differences) to stay far from the subnormal range and from overflow
+    if not (-900 < math.log2(low) + k and math.log2(top) + k < 900 and math.log2(low) > -900 and math.log2(top) < 900):
+        return 0
+    return k
+
+
+def rescale_line(line: str, k: int) -> str:
+    from common import f2h
+    f = 2.0 ** k
+    toks = line.split(" ")
+    if toks[0] == "n":
+        return " ".join(t.split("=")[0] + "=" + f2h(h2f(t.split("=")[1]) * f) if t.startswith(("lambda_=", "delta=")) else t for t in toks)
+    if toks[0] in ("u", "uq") and len(toks) > 2:
+        toks[2] = f2h(h2f(toks[2]) * f)
+        return " ".join(toks)
+    return line
+
+
+def unscale_obs(obs_line: str, k: int) -> str:
+    from common import f2h
+    f = 2.0 ** -k
+    return " ".join("x" + f2h(h2f(t[1:]) * f) if (t.startswith("x") and len(t) == 17) else t for t in obs_line.split(" "))
+
+
 def compare_batch(out: Outcome, runners: list[dets.Runner], rtol: float = 1e-9, label: str = "") -> list[int]:
     """Run all runners' lines through the driver (one call) and diff.  Returns, per runner, the number of steps
     validated (up to the first near-tie).  Model/implementation disagreements go to out.mismatches."""
-    lines, spans = [], []
+    lines, spans, shifts = [], [], []
     for r in runners:
         spans.append((len(lines), len(lines) + len(r.lines)))
-        lines.extend(r.lines)
+        k = pow2_shift(r)
+        shifts.append(k)
+        lines.extend(r.lines if k == 0 else [rescale_line(l, k) for l in r.lines])
     res = run_driver(lines)
+    for (a, b), k in zip(spans, shifts):
+        if k:
+            res[a:b] = [unscale_obs(o, k) for o in res[a:b]]
     validated = []
     for r, (a, b) in zip(runners, spans):
         ok_steps = 0
